@@ -91,6 +91,17 @@ class FuncInfo:
         return any(d.endswith("cached_property") for d in self.decos)
 
     @property
+    def is_memoised(self) -> bool:
+        return any(d.split("(")[0].split(".")[-1] in ("lru_cache", "cache") for d in self.decos)
+
+    KNOWN_DECOS = ("property", "cached_property", "classmethod", "staticmethod", "model_validator", "field_validator", "computed_field",
+                   "abstractmethod", "lru_cache", "cache", "override", "final", "overload", "field_serializer", "validate_call")
+
+    @property
+    def unknown_decorators(self) -> list:
+        return [d for d in self.decos if d.split("(")[0].split(".")[-1] not in self.KNOWN_DECOS]
+
+    @property
     def is_classmethod(self) -> bool:
         return "classmethod" in self.decos
 
